@@ -18,7 +18,7 @@ def build_effects(P, S):
     res = extract.analyse()
     aux = set(res.get('auxiliary', []))
     srcs = [rel for rel, _ in extract.ANCHORS + extract.AUXILIARY + extract.EXTENDED]
-    out = ['import FinVerif.Model.C18', '', 'namespace FinVerif.Gen.Effects', 'open FinVerif.C18', '']
+    out = ['import FinVerif.Model.C18', 'import FinVerif.Model.C18g', '', 'namespace FinVerif.Gen.Effects', 'open FinVerif.C18', '']
     names = []
     ext_names = []
     for cls, c in list(res['classes'].items()) + list(res.get('extended', {}).items()):
@@ -46,6 +46,40 @@ def build_effects(P, S):
                'tools/effects/extract.py -/')
     out.append('def moduleState : List (String × String × String × String) := [' + ',\n  '.join(
         '(%s, %s, %s, %s)' % tuple(_strs([x])[1:-1] for x in row) for row in res.get('module_state', [])) + ']\n')
+    # ---- inter-class call graph (growth round 7b): NEW defs only, everything above is textually what it was
+    cg = res.get('call_graph', {'edges': [], 'unresolved': [], 'targets': {}, 'nodes': []})
+    tnames = []
+    for cls, c in cg['targets'].items():
+        ident = 'tgt_' + cls
+        tnames.append(ident)
+        ms = []
+        for m, s in c['methods'].items():
+            ms.append('    { name := "%s", isPublic := %s,\n      rbw := %s,\n      writes := %s,\n      must := %s,\n'
+                      '      pwrites := %s, pcalls := %s,\n      gwrites := %s, greads := %s, text := %s }'
+                      % (m, 'true' if (s['public'] and m != '__init__') else 'false', _strs(s['rbw']), _strs(s['writes']), _strs(s['must']),
+                         _strs(s['pwrites']), _strs(s['pcalls']), _strs(s['gwrites']), _strs(s['greads']),
+                         'true' if s['text'] else 'false'))
+        out.append(f'/-- {c["file"]} (reached through the call graph only) -/')
+        out.append(f'def {ident} : ClassEff :=\n  {{ name := "{cls}", anchored := false,\n'
+                   f'    ctor := {_strs(c["ctor"])},\n    methods := [\n' + ',\n'.join(ms) + '] }\n')
+    out.append('/-- classes outside `classes` / `extendedClasses` on which a resolved call lands -/')
+    out.append('def callTargetClasses : List ClassEff := [' + ', '.join(tnames) + ']\n')
+    idx = {(n[0], n[1]): i for i, n in enumerate(cg['nodes'])}
+    pairs = sorted({(idx[(e[0], e[1])], idx[(e[3], e[4])]) for e in cg['edges']})
+    out.append('/-- the edges as (source id, target id), without repetition, sorted -/')
+    out.append('def callEdgeIds : List (Nat × Nat) := [' + ', '.join('(%d, %d)' % p for p in pairs) + ']\n')
+    pidx = {p: i for i, p in enumerate(pairs)}
+    out.append('/-- end points of the call edges with their own effect summary; position = node id -/')
+    out.append('def callNodes : List CallNode := [' + ',\n  '.join(
+        '{ cls := "%s", meth := "%s", writes := %s, readBack := %s, pwrites := %s, gwrites := %s }'
+        % (n[0], n[1], _strs(n[2]), _strs(n[3]), _strs(n[4]), _strs(n[5])) for n in cg['nodes']) + ']\n')
+    out.append('/-- method cls.meth calls targetCls.targetMeth on its argument / attribute arg (tools/effects/extract.py `call_graph`) -/')
+    out.append('def callGraph : List CallEdge := [' + ',\n  '.join(
+        '{ cls := "%s", meth := "%s", arg := "%s", targetCls := "%s", targetMeth := "%s", src := %d, dst := %d, pair := %d }'
+        % (e[0], e[1], e[2], e[3], e[4], idx[(e[0], e[1])], idx[(e[3], e[4])], pidx[(idx[(e[0], e[1])], idx[(e[3], e[4])])]) for e in cg['edges']) + ']\n')
+    out.append('/-- call sites on a parameter / attribute whose class could not be resolved: (class, method, argument, method called) -/')
+    out.append('def unresolvedCalls : List (String × String × String × String) := [' + ',\n  '.join(
+        '(%s, %s, %s, %s)' % tuple(_strs([x])[1:-1] for x in u) for u in cg['unresolved']) + ']\n')
     out.append('end FinVerif.Gen.Effects\n')
     return sorted(set(srcs)), '\n'.join(out)
 
